@@ -78,6 +78,8 @@ Pred(f, x) ==
       [] f = "pos"  -> Num(x) > 0
       [] f = "true" -> TRUE
       [] f = "lt2"  -> Num(x) < 2
+      [] f = "odd"  -> Num(x) % 2 = 1           \* built as remove(even)
+      [] f = "ge2"  -> Num(x) >= 2              \* built as remove(lt2)
 
 KeyF(f, x) ==
     CASE f = "id"   -> x
